@@ -1,2 +1,287 @@
-(* Props.C19 — placeholder; theorems are being added. *)
-Require Import PyStr Read.
+(* Props.C19 — ignore_header_errors makes header parsing tolerant and non-interfering.
+   Statements only; proofs in Proofs/JunkProofs.v (the header-items loop as a filter_map),
+   Proofs/JunkSteering.v (steering keys), Proofs/JunkRead.v (read level), Proofs/ReadCongr.v.
+
+   Formal reading.  parse_body v k c ignore comment_chars tr lines acc is the header-items loop
+   (reader.py parse_header_items_section) over the body lines of one section; read is
+   LASFile.read (Model/Read.v).  A junk line is a line placed in a header section that is not
+   a title (stripped form does not start with '~'); "does not name a steering mnemonic" is
+   junk_line: IF the line parses, its case-compared name is none of VERS/WRAP/DLM/NULL.
+   meta it = (i_orig, i_unit, i_value, i_descr): everything of an item but the session
+   mnemonic (which the duplicate-suffix rule may renumber: FOO -> FOO:1).
+
+   Proved at full strength (all line lists / all texts, by induction; no bound):
+     C19_total, C19_total_ok       with the flag the loop never returns PErr;
+     C19_read_total                with the flag read never returns a header error;
+     C19_unparsable_skipped        an unparsable junk line at ANY site is skipped, the result is
+                                   the same (no side condition: if an earlier line ends the
+                                   loop neither text reaches the site);
+     C19_parsable_adds_one         a parsable junk line adds exactly its own item at one
+                                   position p; removing position p gives back the original
+                                   (orig, unit, value, descr) list;
+     C19_junk_adds_at_most_one     one junk line: between 0 and 1 more items;
+     C19_genuine_subsequence,      ANY number of junk lines at ANY sites: the genuine items'
+     C19_genuine_subsequence_flag, metadata are, in order, a subsequence of the result's;
+     C19_fields_frame              each genuine item is still present with its original
+                                   mnemonic, unit, value and description;
+     C19_only_header_error,        without the flag the loop returns POk or PErr (strip raw) for a
+     C19_error_names_line          line raw of the section that is a content line and that
+                                   parse_line rejects -- the FIRST such line; nothing else can
+                                   fail in the model of the loop (upper/lower, item
+                                   construction and append are total on the parsed record,
+                                   which is the anchor's worry about the try covering the
+                                   regex step only);
+     C19_read_only_header_error    the same at the level of read: RErr (EHeader line) only
+                                   without the flag, and line is the stripped form of a line
+                                   of the text that the line parser rejects;
+     C19_flag_irrelevant_when_clean  when every content line parses the flag changes nothing;
+     C19_sect_append_frame,        appending an item of another name does not change what
+     C19_steering_lookup,          sect_find returns for a colon-free key; junk lines do not
+     C19_steering_frame            change the items found under VERS/WRAP/DLM/NULL, hence
+                                   update_steering (the steering values) is the same;
+     C19_data_reads_only           read_one_data looks at WRAP/NULL steering, the delimiter,
+                                   the section's own lines, ~Curves and the WRAP item of
+                                   ~Version, and writes curves/data/engine -- nothing else;
+     C19_data_frame                whole read, on block lists (C05): junk lines, any number,
+                                   inserted in the bodies of header sections other than the
+                                   one declaring the curves (the statement excludes ~C): both
+                                   reads succeed or fail alike (same error), and the curves,
+                                   the curve data, the engine, the ~Other text are EQUAL and
+                                   the ~Version/~Well/~Parameter/custom sections keep their
+                                   genuine items as a subsequence (las_frame).
+   Nothing is _partial.  Outside the model (assumption of the harness): an exception raised
+   from inside CPython's re on pathological lines. *)
+From Coq Require Import List Arith NArith Bool String.
+Import ListNotations.
+Require Import PyStr Regex NumLit Num Tables SectionParse Sections DataRead Read.
+Require Import SectionsProofs ItemsBindProofs JunkProofs JunkSteering ReadCongr BlocksCongr JunkRead.
+Open Scope string_scope.
+Open Scope list_scope.
+Open Scope N_scope.
+
+(* ---- 1. total with the flag ------------------------------------------------------------ *)
+Theorem C19_total : forall v k c cc tr lines acc l,
+  parse_body v k c true cc tr lines acc <> PErr l.
+Proof. exact parse_body_total_ne. Qed.
+
+Theorem C19_total_ok : forall v k c cc tr lines acc,
+  exists r, parse_body v k c true cc tr lines acc = POk r.
+Proof. exact parse_body_total. Qed.
+
+Theorem C19_read_total : forall fhex fstr numeq o t line,
+  o_ignore_header_errors o = true -> read fhex fstr numeq o t <> RErr (EHeader line).
+Proof. exact read_total_header. Qed.
+
+(* ---- 2. an unparsable junk line is skipped ------------------------------------------------ *)
+Theorem C19_unparsable_skipped : forall v k c cc tr a j b acc,
+  startswith [ch_tilde] (strip j) = false ->
+  parse_line v k c (strip j) = None ->
+  parse_body v k c true cc tr (a ++ j :: b) acc = parse_body v k c true cc tr (a ++ b) acc.
+Proof. exact junk_unparsable_skipped. Qed.
+
+(* ---- 3. a parsable junk line adds its own item and nothing else ---------------------------- *)
+Theorem C19_parsable_adds_one : forall v k c cc tr ig a j b acc r it,
+  no_title a -> content_line cc j = true -> parse_line v k c (strip j) = Some it ->
+  parse_body v k c ig cc tr (a ++ b) acc = POk r ->
+  exists r' p,
+    parse_body v k c ig cc tr (a ++ j :: b) acc = POk r' /\
+    List.length r' = S (List.length r) /\ (p <= List.length r)%nat /\
+    map meta r' = insert_at p (meta it) (map meta r) /\
+    remove_at p (map meta r') = map meta r.
+Proof. exact junk_parsable_adds_one. Qed.
+
+Theorem C19_junk_adds_at_most_one : forall v k c cc tr ig a j b acc r',
+  no_title a -> startswith [ch_tilde] (strip j) = false ->
+  parse_body v k c ig cc tr (a ++ j :: b) acc = POk r' ->
+  exists r, parse_body v k c ig cc tr (a ++ b) acc = POk r /\
+            (List.length r <= List.length r' <= S (List.length r))%nat /\
+            subseq (map meta r) (map meta r').
+Proof. exact junk_adds_at_most_one. Qed.
+
+Theorem C19_genuine_subsequence : forall v k c cc tr ig lines lines' acc r r',
+  ins_lines nontitle lines lines' ->
+  parse_body v k c ig cc tr lines acc = POk r ->
+  parse_body v k c ig cc tr lines' acc = POk r' ->
+  subseq (map meta r) (map meta r').
+Proof. exact junk_genuine_subsequence. Qed.
+
+Theorem C19_genuine_subsequence_flag : forall v k c cc tr lines lines' acc,
+  ins_lines nontitle lines lines' ->
+  exists r r', parse_body v k c true cc tr lines acc = POk r /\
+               parse_body v k c true cc tr lines' acc = POk r' /\
+               subseq (map meta r) (map meta r') /\ (List.length r <= List.length r')%nat.
+Proof. exact junk_genuine_subsequence_flag. Qed.
+
+Theorem C19_fields_frame : forall v k c cc tr ig lines lines' acc r r',
+  ins_lines nontitle lines lines' ->
+  parse_body v k c ig cc tr lines acc = POk r ->
+  parse_body v k c ig cc tr lines' acc = POk r' ->
+  forall it, In it r ->
+  exists it', In it' r' /\ i_orig it' = i_orig it /\ i_unit it' = i_unit it /\
+              i_value it' = i_value it /\ i_descr it' = i_descr it.
+Proof. exact junk_fields_frame. Qed.
+
+(* ---- 4. without the flag: the only failure, naming its line -------------------------------- *)
+Theorem C19_only_header_error : forall v k c cc tr ig lines acc,
+  (exists r, parse_body v k c ig cc tr lines acc = POk r) \/
+  (ig = false /\ exists raw, In raw lines /\ parse_body v k c ig cc tr lines acc = PErr (strip raw) /\
+                            content_line cc raw = true /\ parse_line v k c (strip raw) = None).
+Proof. exact parse_body_only_header_error. Qed.
+
+Theorem C19_error_names_line : forall v k c cc tr ig lines acc l,
+  parse_body v k c ig cc tr lines acc = PErr l ->
+  exists a raw b, lines = a ++ raw :: b /\ l = strip raw /\ content_line cc raw = true /\
+                  parse_line v k c (strip raw) = None /\
+                  Forall (fun x => content_line cc x = true -> parse_line v k c (strip x) <> None) a.
+Proof. exact parse_body_error_first. Qed.
+
+Theorem C19_read_only_header_error : forall fhex fstr numeq o t line,
+  read fhex fstr numeq o t = RErr (EHeader line) ->
+  o_ignore_header_errors o = false /\
+  exists raw v k, In raw (lines_keep t) /\ line = strip raw /\
+                  content_line [ch_hash] raw = true /\ parse_line v k (o_mcase o) (strip raw) = None.
+Proof. exact read_header_error_names_line. Qed.
+
+Theorem C19_flag_irrelevant_when_clean : forall v k c cc tr lines acc,
+  Forall (fun x => content_line cc x = true -> parse_line v k c (strip x) <> None) lines ->
+  parse_body v k c true cc tr lines acc = parse_body v k c false cc tr lines acc.
+Proof. exact parse_body_flag_irrelevant. Qed.
+
+(* ---- 5. steering ------------------------------------------------------------------------------ *)
+Theorem C19_sect_append_frame : forall tr key l x,
+  in_str ch_colon key = false -> Forall sess_wf l -> sess_wf x ->
+  mn_compare tr (useful (i_orig x)) key = false ->
+  sect_find tr key (sect_append tr l x) = sect_find tr key l.
+Proof. exact sect_find_sect_append_other. Qed.
+
+Theorem C19_steering_lookup : forall v k c cc tr ig key lines lines' acc r r',
+  In key steer_keys -> Forall sess_wf acc ->
+  ins_lines (junk_line v k c tr) lines lines' ->
+  parse_body v k c ig cc tr lines acc = POk r ->
+  parse_body v k c ig cc tr lines' acc = POk r' ->
+  sect_find tr key r' = sect_find tr key r.
+Proof. exact junk_steering_lookup. Qed.
+
+Theorem C19_steering_frame : forall v k c cc tr ig letter lines lines' r r' ps,
+  ins_lines (junk_line v k c tr) lines lines' ->
+  parse_body v k c ig cc tr lines [] = POk r ->
+  parse_body v k c ig cc tr lines' [] = POk r' ->
+  update_steering letter (mksect r' tr) ps = update_steering letter (mksect r tr) ps.
+Proof. exact junk_update_steering. Qed.
+
+(* ---- 6. the curve data -------------------------------------------------------------------------- *)
+Theorem C19_data_reads_only : forall fhex fstr numeq o ls ps d p l,
+  read_one_data fhex fstr numeq o ls ps d p l =
+  match data_core fhex fstr numeq o (p_wrapped ps) (p_null ps) d (body_lines ls p) (l_curves l) (wrap_decl l) with
+  | inl (cs, dat, eng) =>
+      inl (mklas (l_version l) (l_well l) cs (l_params l) (l_other l) (l_custom l) dat eng)
+  | inr e => inr e
+  end.
+Proof. exact read_one_data_core. Qed.
+
+Theorem C19_data_frame : forall fhex fstr numeq o t t' pre pre' bs bs',
+  o_ignore_header_errors o = true ->
+  lines_keep t = pre ++ render bs -> lines_keep t' = pre' ++ render bs' ->
+  notitles pre -> notitles pre' -> Forall wf_block bs ->
+  Forall2 (junk_ins_block (o_mcase o)) bs bs' ->
+  rres_frame (read fhex fstr numeq o t) (read fhex fstr numeq o t').
+Proof. exact read_junk_blocks. Qed.
+
+(* what rres_frame / las_frame say, spelled out *)
+Theorem C19_frame_meaning : forall x y, rres_frame x y ->
+  match x, y with
+  | ROk l, ROk l' =>
+      l_curves l = l_curves l' /\ l_data l = l_data l' /\ l_engine_numpy l = l_engine_numpy l' /\
+      l_other l = l_other l' /\
+      subseq (map meta (s_items (l_version l))) (map meta (s_items (l_version l'))) /\
+      subseq (map meta (s_items (l_well l))) (map meta (s_items (l_well l'))) /\
+      subseq (map meta (s_items (l_params l))) (map meta (s_items (l_params l')))
+  | RErr e, RErr e' => e = e'
+  | _, _ => False
+  end.
+Proof. exact rres_frame_meaning. Qed.
+
+(* ---- non-vacuity ------------------------------------------------------------------------------------ *)
+Definition nl (s : string) : list N := s2l s ++ [10].
+
+Example C19_ex_loop :
+  parse_line V20 KWell CaseUpper (s2l "!!!!") = None /\
+  (exists it, parse_line V20 KWell CaseUpper (s2l "FOO .M 12 : a foo") = Some it /\ i_orig it = s2l "FOO") /\
+  (match parse_body V20 KWell CaseUpper true [ch_hash] true
+           [nl " STRT.M 1.0 : start"; nl "!!!!"; nl "FOO .M 12 : a foo"; nl " STOP.M 2.0 : stop"] [] with
+   | POk r => map i_orig r = [s2l "STRT"; s2l "FOO"; s2l "STOP"]
+   | PErr _ => False end) /\
+  parse_body V20 KWell CaseUpper false [ch_hash] true
+           [nl " STRT.M 1.0 : start"; nl "!!!!"; nl "FOO .M 12 : a foo"] [] = PErr (s2l "!!!!").
+Proof. split; [vm_compute; reflexivity|]. split; [eexists; split; vm_compute; reflexivity|]. split; vm_compute; reflexivity. Qed.
+
+Definition ex_fhex (t : list N) : option (list N) :=
+  match py_float_dec t with Some _ => Some t | None => None end.
+Definition ex_fstr (t : list N) : list N := t.
+Definition ex_numeq (a b : list N) : bool := str_eqb a b.
+Definition ex_opts : ropts := mkropts true CaseUpper false true false.
+
+Definition ex_blocks : list block :=
+  [ (nl "~Version", [nl " VERS. 2.0 : v"; nl " WRAP.  NO : w"]);
+    (nl "~Well", [nl " STRT.M 1.0 : start"; nl " NULL. -999.25 : null"]);
+    (nl "~Curve", [nl " DEPT.M : depth"; nl " A.V : a"]);
+    (nl "~Params", [nl " X. 1 : x"]);
+    (nl "~ASCII", [nl " 1.0 2.0"; nl " 3.0 -999.25"]) ].
+Definition ex_blocks_junk : list block :=
+  [ (nl "~Version", [nl " VERS. 2.0 : v"; nl "!!!!"; nl " WRAP.  NO : w"; nl "junk. here : x"]);
+    (nl "~Well", [nl "????"; nl " STRT.M 1.0 : start"; nl "FOO .M 12 : a foo"; nl " NULL. -999.25 : null"]);
+    (nl "~Curve", [nl " DEPT.M : depth"; nl " A.V : a"]);
+    (nl "~Params", [nl " X. 1 : x"; nl "a b c"]);
+    (nl "~ASCII", [nl " 1.0 2.0"; nl " 3.0 -999.25"]) ].
+Definition ex_text : list N := List.concat (render ex_blocks).
+Definition ex_text_junk : list N := List.concat (render ex_blocks_junk).
+
+Ltac junk_for_tac :=
+  intros v; split; [vm_compute; reflexivity|];
+  intros it H; destruct v; vm_compute in H; first [discriminate H | injection H as <-; vm_compute; reflexivity].
+Ltac ins_tac :=
+  repeat first [ apply ji_nil | apply ji_keep | apply ji_junk; [junk_for_tac|] ].
+
+Example C19_ex_hyps :
+  lines_keep ex_text = [] ++ render ex_blocks /\ lines_keep ex_text_junk = [] ++ render ex_blocks_junk /\
+  Forall wf_block ex_blocks /\ Forall2 (junk_ins_block CaseUpper) ex_blocks ex_blocks_junk.
+Proof.
+  split; [vm_compute; reflexivity|]. split; [vm_compute; reflexivity|]. split; [repeat constructor|].
+  repeat (apply Forall2_cons || apply Forall2_nil); (split; [reflexivity|]);
+    first [ right; reflexivity
+          | left; split; [vm_compute; reflexivity|]; split; [vm_compute; reflexivity|]; ins_tac ].
+Qed.
+
+Example C19_ex_read :
+  match read ex_fhex ex_fstr ex_numeq ex_opts ex_text, read ex_fhex ex_fstr ex_numeq ex_opts ex_text_junk with
+  | ROk l, ROk l' =>
+      l_data l = [ [CNum (s2l "1.0"); CNum (s2l "3.0")]; [CNum (s2l "2.0"); CNaN] ] /\
+      l_data l' = l_data l /\ l_curves l' = l_curves l /\
+      List.length (s_items (l_well l')) = S (List.length (s_items (l_well l)))
+  | _, _ => False
+  end.
+Proof. vm_compute. repeat split. Qed.
+
+Example C19_ex_read_noflag :
+  read ex_fhex ex_fstr ex_numeq (mkropts false CaseUpper false true false) ex_text_junk = RErr (EHeader (s2l "!!!!")).
+Proof. vm_compute. reflexivity. Qed.
+
+Print Assumptions C19_total.
+Print Assumptions C19_total_ok.
+Print Assumptions C19_read_total.
+Print Assumptions C19_unparsable_skipped.
+Print Assumptions C19_parsable_adds_one.
+Print Assumptions C19_junk_adds_at_most_one.
+Print Assumptions C19_genuine_subsequence.
+Print Assumptions C19_genuine_subsequence_flag.
+Print Assumptions C19_fields_frame.
+Print Assumptions C19_only_header_error.
+Print Assumptions C19_error_names_line.
+Print Assumptions C19_read_only_header_error.
+Print Assumptions C19_flag_irrelevant_when_clean.
+Print Assumptions C19_sect_append_frame.
+Print Assumptions C19_steering_lookup.
+Print Assumptions C19_steering_frame.
+Print Assumptions C19_data_reads_only.
+Print Assumptions C19_data_frame.
+Print Assumptions C19_frame_meaning.
